@@ -177,7 +177,9 @@ def collect(Node, tree):
     return out
 
 
-COMMENTS = ['/*c*/', '// c\n', '/* a\n b */', '/*x*/ /*y*/', '// note:  \t\n']
+COMMENTS = ['/*c*/', '// c\n', '/* a\n b */', '/*x*/ /*y*/', '// note:  \t\n',
+            # every ES5 line terminator inside and behind a comment, with a second comment on the same (new) line
+            '/* a\u2028 b */ /*z*/', '// c\u2029/*z*/', '/* a\r\n b */ /*z*/', '// c\r/*z*/']
 
 
 def check_placement(mods, toks, i, comment):
@@ -308,7 +310,7 @@ def main(run, tier):
                        'placement matrix and pretty-form round trip bounded')
     run.floor = 300
     from . import parsefwd
-    parsefwd.add(run, tier)
+    parsefwd.add(run, tier, positions=True)
     from . import attrobl
     import contracts.frames as _fr
     attrobl.frame_obligations(run, _fr.COMMENT_CHANNEL)
